@@ -538,6 +538,14 @@ def coll(t, depth=0):
         return []
     if t[0] == "list" and len(t) == 2:
         return [_group((), [(frozenset(), canon(x))]) for x in t[1]]
+    if t[0] == "upd" and len(t) == 4 and t[2] == "retain" and len(t[3]) == 1 and isinstance(t[3][0], tuple) and t[3][0][:1] == ("closure",) and len(t[3][0]) == 3:
+        # `xs.retain(|x| keep(x))` is xs filtered by keep, in order; a map hands its closure the key and the value of an entry
+        cl = t[3][0]
+        if len(cl[1]) == 2 and all("/" not in n_ for n_ in cl[1]):
+            pair = ("param", "$entry")
+            cl = ("closure", ("$entry",), sym.subst(cl[2], {cl[1][0]: ("proj", pair, (("tuple", "0"),)), cl[1][1]: ("proj", pair, (("tuple", "1"),))}))
+        if len(cl[1]) == 1:
+            return coll(("call", "Iterator::filter", (t[1], cl)), depth)
     if t[0] in ("upd", "phi"):
         adds = []
         base = _adds(t, (), adds)
